@@ -6,12 +6,14 @@
   of version `w` wrote" (directional; `lenient` = the position is the declared type of an
   optional field, the only place where the writer's enum may have variants unknown to the
   reader); `project w r v` — the value the documentation promises the reader; `benign w r v` —
-  excludes the one situation in which the code as it is breaks the promise (K5).
+  used to exclude the one situation in which the code broke the promise (K5); since the repair it
+  is always true (`benign_always`) and the statement is proved in full (`compat_decode_full`).
 -/
 import Minicbor.Compat
 import Minicbor.Thm.C09Round
 import Minicbor.Lemmas.DeriveCompat
 import Minicbor.Lemmas.DeriveCompat3
+import Minicbor.Lemmas.DeriveBenign
 
 namespace Minicbor.C10
 open Minicbor.Derive
@@ -55,43 +57,35 @@ inductive CompatStep : Bool → FTy → FTy → Prop where
 def k5Writer : FTy := .struct {} [({ idx := 0 }, .int .u8), ({ idx := 2 }, .int .u8)]
 def k5Reader : FTy := .struct {} [({ idx := 0 }, .int .u8), ({ idx := 1, tag := some 5 }, .option (.int .u8)), ({ idx := 2 }, .int .u8)]
 
-/-- the full-strength statement of the property (false on the code as it is: K5). -/
+/-- the full-strength statement of the property; the size bound is what every Rust slice satisfies
+    (`skip()` counts in `u64`; the model's lists are unbounded).  Proved below: `compat_decode_full`. -/
 def compat_decode_statement : Prop :=
   ∀ (w r : FTy) (v : Derive.Val) (rest : Bytes), accepted w = true → accepted r = true → compatible w r = true →
-    hasTy w v = true → C09.noClash w v = true →
+    hasTy w v = true → C09.noClash w v = true → (deriveEncode w v).length < 2 ^ 64 →
     ∀ pv, project w r v = .ok pv → deriveDecode r (deriveEncode w v ++ rest) = .ok pv rest
 
-/-- K5: a tagged optional field added at a gap index (array encoding) rejects the bare `null` the
-    older writer put there: `83 01 f6 02` read by the newer struct is a type error, although the
-    two versions are related by the documented edit "add an optional field". -/
-theorem compat_counterexample_K5 :
+/-- K5 (repaired in /repo): a tagged optional field added at a gap index (array encoding) used to
+    reject the bare `null` the older writer put there (`83 01 f6 02` read by the newer struct was a
+    type error, although the two versions are related by the documented edit "add an optional
+    field").  The reader now accepts the bare `null` and delivers the projection; the tagged `null`
+    its own encoder writes (`c5 f6`) and a tagged value are read as before. -/
+theorem compat_K5_repaired :
     accepted k5Writer = true ∧ accepted k5Reader = true ∧ compatible k5Writer k5Reader = true ∧
     compatible k5Reader k5Writer = true ∧
     deriveEncode k5Writer (.struct [.int 1, .int 2]) = [0x83, 0x01, 0xf6, 0x02] ∧
     project k5Writer k5Reader (.struct [.int 1, .int 2]) = .ok (.struct [.int 1, .none, .int 2]) ∧
-    deriveDecode k5Reader [0x83, 0x01, 0xf6, 0x02] = .err .type [0x02] := by
-  refine ⟨by rfl, by rfl, by rfl, by rfl, by rfl, by rfl, by rfl⟩
+    deriveDecode k5Reader [0x83, 0x01, 0xf6, 0x02] = .ok (.struct [.int 1, .none, .int 2]) [] ∧
+    deriveDecode k5Reader [0x83, 0x01, 0xc5, 0xf6, 0x02] = .ok (.struct [.int 1, .none, .int 2]) [] ∧
+    deriveDecode k5Reader [0x83, 0x01, 0xc5, 0x09, 0x02] = .ok (.struct [.int 1, .some (.int 9), .int 2]) [] ∧
+    deriveDecode k5Reader [0x83, 0x01, 0xc6, 0x09, 0x02] = .err .tag [0x09, 0x02] := by
+  refine ⟨by rfl, by rfl, by rfl, by rfl, by rfl, by rfl, by rfl, by rfl, by rfl, by rfl⟩
 
-theorem compat_decode_statement_false : ¬ compat_decode_statement := by
-  intro h
-  have := h k5Writer k5Reader (.struct [.int 1, .int 2]) [] (by rfl) (by rfl) (by rfl) (by rfl) (by rfl)
-    (.struct [.int 1, .none, .int 2]) (by rfl)
-  have e : deriveDecode k5Reader (deriveEncode k5Writer (.struct [.int 1, .int 2]) ++ []) = .err .type [0x02] := by rfl
-  rw [e] at this
-  cases this
-
-/-- `benign` excludes exactly that: false on the K5 witness, true on the same pair when the new
-    field carries no tag, or when the writer's array ends before the new field's index — and there
-    the decoder delivers the projection. -/
-theorem k5_benign_excludes :
-    benign k5Writer k5Reader (.struct [.int 1, .int 2]) = false ∧
-    (let r' : FTy := .struct {} [({ idx := 0 }, .int .u8), ({ idx := 1 }, .option (.int .u8)), ({ idx := 2 }, .int .u8)]
-     benign k5Writer r' (.struct [.int 1, .int 2]) = true ∧
-     deriveDecode r' (deriveEncode k5Writer (.struct [.int 1, .int 2])) = .ok (.struct [.int 1, .none, .int 2]) []) ∧
-    (let r'' : FTy := .struct {} [({ idx := 0 }, .int .u8), ({ idx := 2 }, .int .u8), ({ idx := 5, tag := some 5 }, .option (.int .u8))]
-     benign k5Writer r'' (.struct [.int 1, .int 2]) = true ∧
-     deriveDecode r'' (deriveEncode k5Writer (.struct [.int 1, .int 2])) = .ok (.struct [.int 1, .int 2, .none]) []) := by
-  refine ⟨by rfl, ⟨by rfl, by rfl⟩, ⟨by rfl, by rfl⟩⟩
+/-- a bare `null` is accepted only where the field has a nil value: a tagged *mandatory* field still
+    insists on its tag. -/
+theorem bare_null_needs_nil :
+    let r : FTy := .struct {} [({ idx := 0 }, .int .u8), ({ idx := 1, tag := some 5 }, .int .u8)]
+    accepted r = true ∧ deriveDecode r [0x82, 0x01, 0xf6] = .err .type [] := by
+  refine ⟨by rfl, by rfl⟩
 
 /-- F5 (repaired in /repo, 34b49ef): an `index_only` enum in an optional field that meets an
     unknown index becomes `None` and the sibling field survives — `82 05 07`. -/
@@ -190,8 +184,7 @@ theorem compat_decode_struct_partial (a b : SAttr) (fs gs : Fields) (vs : List D
 theorem compat_add_optional_field (a : SAttr) (fs : Fields) (fa : FAttr) (ft : FTy) (vs : List Derive.Val) (rest : Bytes)
     (haw : accepted (.struct a fs) = true) (har : accepted (.struct a ((fa, ft) :: fs)) = true)
     (hv : hasTy (.struct a fs) (.struct vs) = true) (hc : C09.noClash (.struct a fs) (.struct vs) = true)
-    (hta : a.transparent = false) (hlive : fa.skip = false) (hopt : Optional fa ft)
-    (hk5 : a.enc.getD .array = .array → ∀ m, maxPresent (specFields fs vs) = some m → fa.idx ≤ m → fa.tag = none) :
+    (hta : a.transparent = false) (hlive : fa.skip = false) (hopt : Optional fa ft) :
     deriveDecode (.struct a ((fa, ft) :: fs)) (deriveEncode (.struct a fs) (.struct vs) ++ rest)
       = .ok (.struct (nilVal fa ft :: defaultsFields fs vs)) rest := by
   have haw' := haw
@@ -214,7 +207,7 @@ theorem compat_add_optional_field (a : SAttr) (fs : Fields) (fa : FAttr) (ft : F
         exact ⟨rfl, rfl, rfl⟩
     · intro b u hbu hbs hl
       rcases List.mem_cons.1 hbu with e | hbu'
-      · cases e; exact ⟨hopt, hk5⟩
+      · cases e; exact hopt
       · have := (lookupVal_none fs vs b.idx hv').1 hl
         exact absurd (mem_liveIdxs fs b u hbu' hbs) this
     · intro p hp hni
@@ -285,13 +278,8 @@ theorem compat_unknown_variant_swallowed (b : FAttr) (u : FTy) (X r r' : Bytes)
     (htag : tagOk b.tag = true) (hsw : swallows b u = true)
     (hdec : decWith b.codec (decTy u) (X ++ r) = .err .variant r')
     (hskip : Dec.skip true (tagBytes b.tag ++ (X ++ r)) = .ok () r) :
-    action (fdOf b u) (tagBytes b.tag ++ (X ++ r)) = .ok none r := by
-  unfold action
-  simp only [fdOf]
-  rw [Dec.bind_run, tagCheck_rt _ _ htag]
-  simp only [catchVariant, hdec, hsw, f5Fixed, Bool.and_self, beq_self_eq_true, if_true]
-  rw [Dec.bind_run, hskip]
-  rfl
+    action (fdOf b u) (tagBytes b.tag ++ (X ++ r)) = .ok none r :=
+  action_swallow b u X r r' htag hsw hdec hskip
 
 /-- … **without disturbing any sibling field**: the slots of all other fields are untouched and
     the decoder stands exactly behind the item. -/
@@ -615,7 +603,7 @@ theorem compat_ty : ∀ (w r : FTy) (l : Bool) (v : Derive.Val), accepted w = tr
           have hfit := fieldsFit_of_frame _ fs vs ha.1.1.1.2 hndW hv hfl
           have hitems := compat_fields fs gs vs ha.1.1.1.2 har.1.1.1.2 hndR hcf hb.1 hv hcl hfit
           have HB : BodyHyp (a.enc.getD .array) fs vs gs :=
-            ⟨ha.1.1.1.2, hndW, hv, har.1.1.1.2, hndR, hcf, hoo, k5_of_benign a.enc fs gs vs ha.1.1.1.2 hv hb.2, hfl, hitems⟩
+            ⟨ha.1.1.1.2, hndW, hv, har.1.1.1.2, hndR, hcf, hoo, hfl, hitems⟩
           exact tyC_struct l a b fs gs vs hta htb htag ha.1.1.1.1 henc HB
         · have htb : b.transparent = true := by rw [← hc.1]; exact hta
           have hc2 := hc.2
@@ -1022,6 +1010,19 @@ theorem compat_decode (w r : FTy) (v : Derive.Val) (rest : Bytes) (haw : accepte
   obtain ⟨pv, hp⟩ := project_defined w r v haw har hc hv
   exact ⟨pv, hp, compat_decode_partial w r v rest haw har hc hb hv hcl hfit pv hp⟩
 
+/-- **C10 in full**: the statement without any exclusion — `benign` holds of every value since the
+    K5 repair (`benign_always`). -/
+theorem compat_decode_full : compat_decode_statement :=
+  fun w r v rest haw har hc hv hcl hfit pv hp =>
+    compat_decode_partial w r v rest haw har hc (benign_always w r v) hv hcl hfit pv hp
+
+/-- … and the projection exists (no hypothesis beyond the statement's). -/
+theorem compat_decode_full_exists (w r : FTy) (v : Derive.Val) (rest : Bytes) (haw : accepted w = true)
+    (har : accepted r = true) (hc : compatible w r = true) (hv : hasTy w v = true)
+    (hcl : C09.noClash w v = true) (hfit : (deriveEncode w v).length < 2 ^ 64) :
+    ∃ pv, project w r v = .ok pv ∧ deriveDecode r (deriveEncode w v ++ rest) = .ok pv rest :=
+  compat_decode w r v rest haw har hc (benign_always w r v) hv hcl hfit
+
 /-- in *lenient* position (the declared type of an optional field) the writer's enum may have
     variants the reader does not know: then the reader's decoder reports an unknown-variant error
     (which the enclosing field turns into `None`); otherwise it returns the projection. -/
@@ -1090,7 +1091,8 @@ example : deriveDecode exNew (deriveEncode exOld exOldVal ++ [3])
     = .ok (.struct [.int 9, .some (.enum 1 [.none]), .none, .list [.struct [.text [0x62], .none]]]) [3] :=
   compat_decode_partial exOld exNew exOldVal [3] (by rfl) (by rfl) (by rfl) (by rfl) (by rfl) (by rfl) (by decide) _ (by rfl)
 
-/-- the same pair with a *tag* on the field added at the gap index is K5: not `benign`, and indeed a type error. -/
+/-- the same pair with a *tag* on the field added at the gap index was K5 (a type error); since the
+    repair the bare `null` at the gap is read as `None` there too. -/
 example :
     let exNewK5 : FTy := .struct {}
       [({ idx := 0 }, .int .u8), ({ idx := 1 }, .option (.enum {} [({ idx := 0 }, []), ({ idx := 1 }, [])])),
@@ -1098,9 +1100,10 @@ example :
     let exOldK5 : FTy := .struct {}
       [({ idx := 0 }, .int .u8), ({ idx := 1 }, .option (.enum {} [({ idx := 0 }, []), ({ idx := 1 }, [])])),
        ({ idx := 3 }, .vec (.int .u8))]
-    compatible exOldK5 exNewK5 = true ∧ benign exOldK5 exNewK5 (.struct [.int 9, .none, .list []]) = false ∧
-    deriveDecode exNewK5 (deriveEncode exOldK5 (.struct [.int 9, .none, .list []])) = .err .type [0x80] := by
-  refine ⟨by rfl, by rfl, by rfl⟩
+    compatible exOldK5 exNewK5 = true ∧
+    deriveDecode exNewK5 (deriveEncode exOldK5 (.struct [.int 9, .none, .list []]))
+      = .ok (.struct [.int 9, .none, .none, .list []]) [] := by
+  refine ⟨by rfl, by rfl⟩
 
 /-! ## The documented edits are instances of `compatible`, both directions (all constructors of `CompatStep`) -/
 
